@@ -10,7 +10,11 @@ use sliding_features::View;
 /// generic "every reported value satisfies bound(out)" runner over the catalogue
 #[derive(Clone, Debug)]
 enum Bound { Range(f64, f64), Ge0, VsctBound(usize), CogBound, Ln199 }
+thread_local! { /// the range is stated from this step on (the earlier updates are silent)
+    static STATE_FROM: std::cell::Cell<usize> = const { std::cell::Cell::new(0) }; }
+fn range_late<T: Dom>(vk: VK, k: usize, b: Bound, from: usize, label: String) { STATE_FROM.with(|p| p.set(from)); let r = std::panic::catch_unwind(std::panic::AssertUnwindSafe(|| range::<T>(vk, k, b, false, label))); STATE_FROM.with(|p| p.set(0)); if let Err(e) = r { std::panic::resume_unwind(e); } }
 fn range<T: Dom>(vk: VK, k: usize, b: Bound, positive: bool, label: String) {
+    let from = STATE_FROM.with(|p| p.get());
     let mut v = build::<T>(&vk, echo());
     let mut cnt = 0usize;
     for t in 0..k {
@@ -18,6 +22,7 @@ fn range<T: Dom>(vk: VK, k: usize, b: Bound, positive: bool, label: String) {
         if positive { T::assume(lt(T::zero(), x)); }
         v.update(x);
         cnt += 1;
+        if t < from { continue; }
         let Some(o) = v.last() else { continue };
         let c = match &b {
             Bound::Range(lo, hi) => Cond::between(T::c(*lo), o, T::c(*hi)),
@@ -138,7 +143,13 @@ pub fn units(tier: Tier, _seed: u64) -> Vec<Unit> {
         }
         u.push(unit!(format!("C07/Min<=Sma,Alma,newest<=Max/N={n}/k={k}/sample-path"), sandwich(n, k)));
     }
-    for x in u.iter_mut().skip(first_big) { x.concolic = Some(9); x.budget_s = 30.0; x.max_decisions = 60000; }
+    // more than a thousand updates at a small window (periodic maintenance, a wrapped ring buffer), the range stated for the last 24
+    // updates only: it must hold for every input that follows the sampled comparison path, so a term that went missing at update 1024
+    // shows even though the sample itself stays in range
+    for (vk, b, label) in [(VK::MyRSI(5), Bound::Range(-1.0, 1.0), "|out| <= 1"), (VK::BinaryEntropy(5), Bound::Range(0.0, 1.0), "0 <= out <= 1"), (VK::HLNormalizer(5), Bound::Range(-1.0, 1.0), "|out| <= 1")] {
+        u.push(unit!(format!("C07/{}/k=1040/stated-from-1016/sample-path", vk.name()), range_late(vk.clone(), 1040usize, b.clone(), 1016usize, label.to_string())));
+    }
+    for x in u.iter_mut().skip(first_big) { x.concolic = Some(9); x.budget_s = 30.0; x.max_decisions = 600000; }
     u.push(unit!("C07/WelfordRolling/k=8", range(VK::WelfordRolling, 8usize, Bound::Ge0, false, "out >= 0".to_string())));
     u.push(unit!("C07/Tanh/k=4", range(VK::Tanh, 4usize, Bound::Range(-1.0, 1.0), false, "|out| <= 1".to_string())));
     u.push(unit!("C07/GTE,LTE/k=5", clip(5usize)));
@@ -148,7 +159,7 @@ pub fn units(tier: Tier, _seed: u64) -> Vec<Unit> {
 pub fn meta() -> Meta {
     Meta {
         functions: vec!["Rsi", "MyRSI", "HLNormalizer", "CorrelationTrendIndicator", "NoiseEliminationTechnology", "Tanh", "PolarizedFractalEfficiency (identity, Sma(2), Ema(2) average)", "LaguerreRSI", "BinaryEntropy", "EhlersFisherTransform (identity, Ema(2) and SuperSmoother(1|2) average)", "WelfordOnline", "WelfordRolling", "Vsct", "Min", "Max", "Sma", "Alma", "GTE", "LTE", "Drawdown", "CenterOfGravity — each ::{new,update,last}"],
-        bounds: "N in {2,3} (quick) / {2..5} (thorough; NET to 5, LaguerreRSI to 4, EFT to 3); k = 2N+2 (N+2..N+4 for the heavily branching views); inputs unconstrained reals (positive where the statement says so); symbolic clip point for GTE/LTE; all comparison outcomes; in addition N in {8,16} (quick) / {6,8,12,16,32} along a sampled comparison path for the range obligations that stay within the solver's reach",
+        bounds: "N in {2,3} (quick) / {2..5} (thorough; NET to 5, LaguerreRSI to 4, EFT to 3); k = 2N+2 (N+2..N+4 for the heavily branching views); inputs unconstrained reals (positive where the statement says so); symbolic clip point for GTE/LTE; all comparison outcomes; in addition N in {8,16} (quick) / {6,8,12,16,32} along a sampled comparison path for the range obligations that stay within the solver's reach; MyRSI(5), BinaryEntropy(5), HLNormalizer(5) also over 1040 updates along a sampled comparison path, the range stated for the last 24 updates",
         outside: vec!["the f64 clause 'up to a few ulps of the bound': decided over the reals here; engine K covers comparison-only kernels (see kani/)", "N > 5, longer streams"],
         assumptions: vec!["|tanh| < 1, exp > 0 and monotonicity of ln with ln(199) < 5.2933049 are axioms about libm functions (uninterpreted in the solver)", "PFE: the documented bound contradicts the formula C11 prescribes (flat window gives N/(N-2)); this is a known finding, and a second obligation checks that PFE leaves [-1,1] only where that reference formula does"],
     }
